@@ -182,7 +182,13 @@ where
     // Dispatch by method
     let result = match options.method {
         Method::RK4 => {
-            let h = options.first_step.unwrap_or_else(|| (xend - x0) / 100.0);
+            let mut h = options.first_step.unwrap_or_else(|| (xend - x0) / 100.0);
+            // The fixed step must respect the upper bound on the step size
+            if let Some(hmax) = options.max_step {
+                if h.abs() > hmax.abs() {
+                    h = hmax.abs() * h.signum();
+                }
+            }
             let solver = RK4::builder()
                 .max_steps(options.max_steps.unwrap_or(usize::MAX))
                 .build();
